@@ -32,16 +32,19 @@ def iflatten(iterable):
     if not isinstance(iterable, (list, tuple)):
         yield iterable
         return
-    remainder = iter(iterable)
-    while True:
-        try:
-            first = next(remainder)
-        except StopIteration:
-            return
-        if isinstance(first, (list, tuple)):
-            remainder = itertools.chain(first, remainder)
+    # an explicit stack of iterators, one per nesting level: chaining a new iterator in
+    # front of the remainder for every sub-list made each item travel through one chain
+    # object per row before it - quadratic in the rows of a range, and deep enough to
+    # crash the interpreter on a few hundred thousand of them
+    stack = [iter(iterable)]
+    while stack:
+        for item in stack[-1]:
+            if isinstance(item, (list, tuple)):
+                stack.append(iter(item))
+                break
+            yield item
         else:
-            yield first
+            stack.pop()
 
 
 def flatten(l):
